@@ -880,6 +880,35 @@ def run_results(method, how):
     return []
 
 
+def run_select_from_sense(ten, ps):
+    """tools/swp.py's flow: MODE SENSE decoded, its result handed to MODE SELECT as it is: building the MODE SELECT command leaves the
+    MODE SENSE command's decoded result exactly as it was (PS bit included)"""
+    from vf import facade as F
+    from vf.props import c13
+    from vf.spec import responses as R
+    import pyscsi.pyscsi.scsi_enum_command as E
+    from pyscsi.pyscsi.scsi import SCSI
+    dev = c13.RecDev(E.sbc)
+    s = SCSI(dev, 512)
+    dev.opcodes = E.sbc
+    fields, _ = R.MODE_PAGES[(0x0A, None)]
+    page = bytearray(R.mode_page(0x0A, None, {fields[0][0]: 1, fields[-1][0]: 0x1234}))
+    if ps:
+        page[0] |= 0x80
+    dev.response = R.mode_data(bool(ten), {"medium_type": 0, "device_specific_parameter": 0}, b"", [bytes(page)])
+    sense = (s.modesense10 if ten else s.modesense6)(0x0A)
+    held = sense.result
+    snap = freeze(copy.deepcopy(held))
+    try:
+        (s.modeselect10 if ten else s.modeselect6)(held)
+    except Exception as e:   # noqa: BLE001
+        return [("select_from_sense/raises", "MODE SELECT(%d) built from the decoded MODE SENSE result raised %s: %s" % (10 if ten else 6, type(e).__name__, e))]
+    if freeze(held) != snap:
+        return [("select_from_sense/result_changed", "building MODE SELECT(%d) from a MODE SENSE result (PS=%d) changed that result: the other command's decoded data are no longer what its device sent"
+                 % (10 if ten else 6, ps))]
+    return []
+
+
 KEEP_SIZES = (96, 512, 4096, 8192, 65536, 1 << 20)
 
 
@@ -981,6 +1010,8 @@ def run_discard(case):
 
 
 def run_case(case):
+    if case[0] == "select_from_sense":
+        return run_select_from_sense(case[1], case[2])
     if case[0] == "opsched":
         return run_opsched(case[1], None, case[2] if case[2] is not None else [])[0]
     if case[0] == "results":
@@ -1091,6 +1122,19 @@ def run_partition(part, tier, seed):
         acc.outcome(("hashseed", tuple(k for k, _ in v)))
         return acc
     if part[0] == "discard":
+        for ten in (0, 1):
+            for ps in (0, 1):
+                case = ["select_from_sense", ten, ps]
+                acc.case(case, nontrivial=True, key=repr(case))
+                acc.transitions += 2
+                try:
+                    v = run_select_from_sense(ten, ps)
+                except Exception:
+                    import traceback
+                    v = [("harness_error", traceback.format_exc()[-500:])]
+                for k, w in v:
+                    acc.violation(k, w, case)
+                acc.outcome((repr(case), tuple(k for k, _ in v)))
         for method in RESULT_METHODS:
             for how in ("copy", "again", "other"):
                 case = ["results", method, how]
